@@ -92,7 +92,8 @@ type served struct {
 	Note     string   `json:"note,omitempty"`
 	Listing  bool     `json:"listing"`
 	Bad      string   `json:"bad,omitempty"` // malformed body served
-	ValueFit bool     `json:"-"`             // oversize only through trailing white space after a value that fits
+	Keyless  bool     `json:"keyless,omitempty"`
+	ValueFit bool     `json:"-"` // oversize only through trailing white space after a value that fits
 }
 
 // script serves one Case.
@@ -269,8 +270,9 @@ func (s *script) list(w http.ResponseWriter, r *http.Request, rec *served) {
 		// the registry's sequence for this listing
 		if isRef {
 			// a filtering registry filters on the value it received (decoded the way net/url decodes a query)
+			// (the *-then-none modes filter page by page, only while the request carries artifactType)
 			s.filterVal = q.Get("artifactType")
-			s.filterOn = c.FilterMode != "none" && s.filterVal != ""
+			s.filterOn = c.FilterMode != "none" && s.filterVal != "" && !strings.HasSuffix(c.FilterMode, "-then-none")
 			for _, d := range c.Refs {
 				if s.filterOn && d.ArtifactType != s.filterVal {
 					continue
@@ -409,8 +411,15 @@ func (s *script) list(w http.ResponseWriter, r *http.Request, rec *served) {
 		if c.LinkComma&1 != 0 {
 			add("token", "17,b")
 		}
-		if isRef && c.Filter != "" && ord%2 == 0 {
-			add("artifactType", c.Filter)
+		if isRef && c.Filter != "" {
+			if strings.HasSuffix(c.FilterMode, "-then-none") {
+				// the first dropAt pages are filtered and say so, then the link drops artifactType
+				if dropAt := 1 + len(c.Sizes)%3; ord+1 < dropAt {
+					add("artifactType", c.Filter)
+				}
+			} else if ord%2 == 0 {
+				add("artifactType", c.Filter)
+			}
 		}
 		if curName != "" && !c.CursorFirst {
 			add(curName, curVal)
@@ -452,12 +461,33 @@ func (s *script) list(w http.ResponseWriter, r *http.Request, rec *served) {
 
 	// body
 	var listJSON []byte
+	declared := ""
+	if s.filterOn {
+		declared = c.FilterMode
+	}
+	empty := end == pos
 	if isRef {
 		refs := s.seqRefs[pos:end]
+		if pf := q.Get("artifactType"); pf != "" && strings.HasSuffix(c.FilterMode, "-then-none") {
+			// this page is filtered by the registry and declared so; later pages may not be
+			var kept []ocispec.Descriptor
+			rec.Keys = rec.Keys[:0]
+			for _, d := range refs {
+				if d.ArtifactType == pf {
+					kept = append(kept, d)
+					rec.Keys = append(rec.Keys, refKey(d))
+				}
+			}
+			refs = kept
+			declared = strings.TrimSuffix(c.FilterMode, "-then-none")
+		}
 		if refs == nil {
 			refs = []ocispec.Descriptor{}
 		}
 		listJSON, _ = json.Marshal(refs)
+		if empty && ord%3 == 1 {
+			listJSON = []byte("null")
+		}
 	} else {
 		items := s.seqKeys[pos:end]
 		if items == nil {
@@ -480,12 +510,12 @@ func (s *script) list(w http.ResponseWriter, r *http.Request, rec *served) {
 	default:
 		field = "manifests"
 		head = `"schemaVersion":2,"mediaType":"` + ocispec.MediaTypeImageIndex + `",`
-		if s.filterOn && c.FilterMode == "annotation" {
+		if declared == "annotation" {
 			head += `"annotations":{"org.opencontainers.referrers.filtersApplied":"artifactType"},`
 		}
 	}
-	if isRef && s.filterOn {
-		switch c.FilterMode {
+	if isRef {
+		switch declared {
 		case "header":
 			w.Header().Set("OCI-Filters-Applied", "artifactType")
 		case "header-multi":
@@ -497,6 +527,12 @@ func (s *script) list(w http.ResponseWriter, r *http.Request, rec *served) {
 		mode, target = c.SizeMode, c.limit()+c.SizeDelta
 	}
 	body, base, usedMode := sizedDoc(head, field, listJSON, mode, target)
+	if empty && ord%3 == 2 {
+		// an empty page whose document has no list member at all
+		body = []byte("{" + strings.TrimSuffix(head, ",") + "}")
+		base, usedMode = len(body), "keyless"
+		rec.Keyless = true
+	}
 	if c.BadKind != "" && (ord == c.BadPage || (c.BadPage == -2 && !hasNext)) {
 		body = badBody(body, c.BadKind)
 		rec.Bad, usedMode = c.BadKind, "bad-"+c.BadKind
